@@ -73,7 +73,8 @@ type caseT struct {
 	Instances int       `json:"instances"`
 	Len       int       `json:"len"`
 	LogDir    string    `json:"logdir"`
-	Iters     int       `json:"iters"` // race mode: every goroutine repeats its calls this often per trial (steady state)
+	Shared    bool      `json:"shared"` // race mode: the goroutines pass ONE argument value (per distinct call) to their calls
+	Iters     int       `json:"iters"`  // race mode: every goroutine repeats its calls this often per trial (steady state)
 }
 
 type mismatch struct {
@@ -156,6 +157,8 @@ func argClass(c callT) string {
 		return "out_of_range"
 	case c.Tok == "list_mixed" || c.Tok == "list_bad" || c.Tok == "map_list":
 		return "list_items"
+	case c.Tok == "data_partial" || c.Tok == "props_partial" || c.Tok == "schema_partial":
+		return "omits_required"
 	}
 	return c.Tok
 }
@@ -357,7 +360,9 @@ var opTable = map[string][][2]string{
 	"objmap":    {{"unser", "rand"}, {"unser", "rand"}, {"unser", "bad"}, {"valid", "rand"}, {"ser", "rand"}},
 	"objstruct": {{"unser", "rand"}, {"unser", "rand"}, {"unser", "rand"}, {"unser", "bad"}, {"ser", "full"}, {"valid", "full"}},
 	"mapcoll":   {{"unser", "collide"}, {"unser", "single"}, {"unser", "bad"}},
-	"oneof": {{"unser", "member_a"}, {"unser", "nodisc"}, {"ser", "member_a"}, {"valid", "member_a"},
+	"objreq": {{"compat", "data_partial"}, {"compat", "data_full"}, {"compat", "props_partial"}, {"compat", "schema_partial"},
+		{"compat", "schema_full"}, {"unser", "data_partial"}, {"unser", "data_full"}},
+	"oneof": {{"unser", "member_a"}, {"unser", "nodisc"}, {"ser", "member_a"}, {"valid", "member_a"}, {"compat", "member_a"},
 		{"valid", "member_a_bad"}, {"ser", "member_a_bad"}, {"unser", "member_a_bad"}},
 	"chain":   {{"unser", "scalar"}, {"unser", "badscalar"}, {"unser", "nested"}, {"compat", "scalar"}},
 	"compat2": {{"compat", "same"}, {"compat", "deep"}},
@@ -629,7 +634,7 @@ func runRace(c caseT, raw json.RawMessage) (r resT) {
 				if i := strings.Index(st, "fatal error: "); i >= 0 {
 					msg = strings.SplitN(st[i+13:], "\n", 2)[0]
 				}
-				r.add(false, map[string]any{"divergence": "data_race", "location": locationOf(sdkFrames(st))},
+				r.add(false, map[string]any{"divergence": "data_race", "location": sharedLoc(c.Shared, locationOf(sdkFrames(st)))},
 					map[string]any{"ckind": c.CKind, "origin": c.Origin, "ops": progNames(c.Progs), "goroutines": c.N,
 						"fatal": msg, "frame": frame, "stderr": clip(st)})
 			default:
@@ -650,7 +655,13 @@ func runRace(c caseT, raw json.RawMessage) (r resT) {
 					r.HarnessErr = "data race inside the harness itself: " + clip(rep.text)
 					return r
 				}
-				r.add(false, map[string]any{"divergence": "data_race", "location": rep.location},
+				loc := rep.location
+				if c.Shared && strings.Contains(loc, " / ") {
+					// a race the location table does not know, on a trial whose goroutines were handed one input
+					// value: the SDK writes to (or reads while another call writes to) the caller's value
+					loc = "callers_input_value"
+				}
+				r.add(false, map[string]any{"divergence": "data_race", "location": loc},
 					map[string]any{"ckind": c.CKind, "origin": c.Origin, "ops": progNames(c.Progs), "goroutines": c.N,
 						"access_a": rep.a, "access_b": rep.b, "report": clip(rep.text)})
 			}
@@ -678,6 +689,26 @@ func sdkFrames(stderr string) []string {
 		}
 	}
 	return out
+}
+
+func sharedLoc(shared bool, loc string) string {
+	if shared && (strings.Contains(loc, " / ") || strings.HasPrefix(loc, "schema.")) {
+		return "callers_input_value"
+	}
+	return loc
+}
+
+// sharedKey: which calls are handed the same value when the input is shared - Unserialize takes the raw form of
+// an argument, Validate / Serialize / data-mode ValidateCompatibility the unserialised form.
+func (in *instance) sharedKey(op callT) string {
+	form := "typed"
+	switch {
+	case op.Op == "unser":
+		form = "raw"
+	case op.Op == "compat" && in.ckind == "oneof_struct" && in.origin != "rebuilt":
+		form = "map" // argFor: compatibility is asked about the map form, the other operations about the struct
+	}
+	return fmt.Sprintf("%s:%s:%v", op.Tok, form, op.m())
 }
 
 func progNames(progs [][]callT) []string {
@@ -744,6 +775,23 @@ func raceTrials(c caseT, out *oneshotOut) {
 			return
 		}
 		out.NeedsApply = out.NeedsApply || in.needsApply
+		// shared input: one value per distinct call, handed to every goroutine that makes that call
+		sharedArgs, sharedBefore := map[string]any{}, map[string]string{}
+		if c.Shared {
+			for _, prog := range c.Progs {
+				for _, op := range prog {
+					k := in.sharedKey(op)
+					if _, ok := sharedArgs[k]; !ok {
+						a, err := in.argFor(op.Op, op.Tok, op.m())
+						if err != nil {
+							out.HarnessErr = err.Error()
+							return
+						}
+						sharedArgs[k], sharedBefore[k] = a, canon(a)
+					}
+				}
+			}
+		}
 		results := make([][]obs, c.N)
 		var wg sync.WaitGroup
 		start := make(chan struct{})
@@ -756,7 +804,11 @@ func raceTrials(c caseT, out *oneshotOut) {
 				<-start
 				for it := 0; it < iters; it++ {
 					for _, op := range prog {
-						res = append(res, in.call(op.Op, op.Tok, op.m()))
+						if c.Shared {
+							res = append(res, in.callWith(op.Op, op.Tok, op.m(), sharedArgs[in.sharedKey(op)], true))
+						} else {
+							res = append(res, in.call(op.Op, op.Tok, op.m()))
+						}
 					}
 				}
 				results[g] = res
@@ -765,6 +817,12 @@ func raceTrials(c caseT, out *oneshotOut) {
 		close(start)
 		wg.Wait()
 		out.Trials++
+		for k, a := range sharedArgs {
+			if after := canon(a); after != sharedBefore[k] {
+				add(sig("shared_input", "argument_modified"), map[string]any{"value": k, "shared_input": true,
+					"argument": sharedBefore[k] + "  ->  " + after})
+			}
+		}
 		// the isolated result: the same call, alone, on another fresh instance (built afterwards, so that
 		// package-level values were first used by the concurrent calls)
 		for g := 0; g < c.N; g++ {
@@ -792,7 +850,7 @@ func raceTrials(c caseT, out *oneshotOut) {
 					add(sig(op.Op, "result_differs_from_isolated"), map[string]any{"call": k,
 						"concurrent": clip(o.key()), "isolated": clip(ref.key()), "err": o.Err, "trial": t})
 				}
-				if !o.ArgSame {
+				if !o.ArgSame && !c.Shared {
 					add(sig(op.Op, "argument_modified"), map[string]any{"call": k, "argument": o.ArgDiff})
 				}
 				if t == 0 && i < len(prog) && in.kind != "steps" {
